@@ -135,9 +135,66 @@ type cliLine struct {
 	text string
 }
 
+// expectedRegs: "that product's list", from the class rules of the property text (C12's oracle), not from the
+// library's own selection function
 func expectedRegs(p veproduct.Product) (veregister.RegisterList, bool) {
-	rl, err := veregister.GetRegisterListByProduct(p)
-	return rl, err == nil
+	cl := productClass(p)
+	return classList(cl), cl != ""
+}
+
+// expectedCliText: the line vecli must print for a register whose device-side content is the payload p:
+// the value the device holds, scaled as the register defines. Independent of the library's readers.
+func expectedCliText(kind int, it poolItem, p []byte) (string, bool) {
+	name := it.reg().Name()
+	switch kind {
+	case 1:
+		var raw float64
+		if it.n.Signed() {
+			switch len(p) {
+			case 1:
+				raw = float64(int8(p[0]))
+			case 2:
+				raw = float64(int16(leU(p)))
+			case 4:
+				raw = float64(int32(leU(p)))
+			case 8:
+				raw = float64(int64(leU(p)))
+			default:
+				return "", false
+			}
+		} else {
+			if len(p) > 8 {
+				return "", false
+			}
+			raw = float64(leU(p))
+		}
+		return fmt.Sprintf("%s=%f%s", name, raw/float64(it.n.Factor())+it.n.Offset(), it.n.Unit()), true
+	case 2:
+		return name + "=" + strings.TrimSpace(string(bytes.TrimRight(p, "\x00"))), true
+	case 3:
+		raw := leU(p)
+		nm, ok := it.e.Factory().IntToStringMap()[int(raw)]
+		if !ok {
+			return "", false
+		}
+		return fmt.Sprintf("%s=%d:%s", name, raw, nm), true
+	case 4:
+		m := it.f.Factory().IntToStringMap()
+		raw := leU(p)
+		ks := make([]int, 0, len(m))
+		for k := range m {
+			ks = append(ks, k)
+		}
+		sort.Ints(ks)
+		var names []string
+		for _, k := range ks {
+			if raw&(1<<uint(k)) != 0 {
+				names = append(names, m[k])
+			}
+		}
+		return name + "=" + strings.Join(names, ", "), true
+	}
+	return "", false
 }
 
 func suiteC20(rng *Rng, thorough bool, s *Sink) {
@@ -150,16 +207,16 @@ func suiteC20(rng *Rng, thorough bool, s *Sink) {
 		s.Violate("CL setup", "", "vecli binary not found next to the harness: "+bin)
 		return
 	}
-	ids := []uint16{0x203, 0xA381, 0xA389, 0xA056, 0xA053, 0xA231}
+	ids := []uint16{0x203, 0xA381, 0xA389, 0xA056, 0xA053, 0xA231, 0xA05F, 0xA04C}
 	if thorough {
-		ids = append(ids, 0x204, 0xA383, 0xA38A, 0xA05F, 0xA060, 0xA042, 0x0300, 0xA2B1, 0xA2FA, 0xA04C, 0xA066)
+		ids = append(ids, 0x204, 0xA383, 0xA38A, 0xA060, 0xA042, 0x0300, 0xA2B1, 0xA2FA, 0xA066, 0xA067, 0xA054, 0xA075)
 	}
 	type scen struct {
-		id      uint16
-		verbose bool
-		ioLog   bool
-		silent  int // -1: answers everything; k: silent after k answered Gets
-		noPing  bool
+		id       uint16
+		verbose  bool
+		ioLog    bool
+		silent   int // -1: answers everything; k: silent after k answered Gets
+		noPing   bool
 		midFrame bool // the device dies in the middle of the frame answering the (k+1)-th Get
 	}
 	var scens []scen
@@ -185,25 +242,30 @@ func suiteC20(rng *Rng, thorough bool, s *Sink) {
 		dev.SilentAfter = sc.silent
 		dev.DieMidFrame = sc.midFrame
 		var mp []string
-		add := func(kind int, r veregister.Register, e *veregister.EnumRegisterStruct) {
+		wantText := map[string]string{}
+		add := func(kind int, it poolItem, e *veregister.EnumRegisterStruct) {
+			r := it.reg()
 			pl := answerFor(kind, r, e, rng)
 			if kind == 1 && rng.Intn(3) == 0 {
-				pl = [][]byte{{0xFF, 0xFF}, {0x00, 0x80}, {0xFF, 0xFF, 0xFF, 0x7F}, {0x80}}[rng.Intn(4)]
+				pl = [][]byte{{0xFF, 0xFF}, {0x00, 0x80}, {0xFF, 0xFF, 0xFF, 0x7F}, {0x80}, {0x9C}, {0xFF, 0xFF, 0xFF, 0xFF}}[rng.Intn(6)]
 			}
 			dev.Regs[r.Address()] = DevAnswer{0, pl}
 			mp = append(mp, fmt.Sprintf("%d=ok:%s", r.Address(), HEX(pl)))
+			if t, ok := expectedCliText(kind, it, pl); ok {
+				wantText[r.Name()] = t
+			}
 		}
 		for i := range rl.NumberRegisters {
-			add(1, rl.NumberRegisters[i], nil)
+			add(1, poolItem{kind: 1, n: &rl.NumberRegisters[i]}, nil)
 		}
 		for i := range rl.TextRegisters {
-			add(2, rl.TextRegisters[i], nil)
+			add(2, poolItem{kind: 2, t: &rl.TextRegisters[i]}, nil)
 		}
 		for i := range rl.EnumRegisters {
-			add(3, rl.EnumRegisters[i], &rl.EnumRegisters[i])
+			add(3, poolItem{kind: 3, e: &rl.EnumRegisters[i]}, &rl.EnumRegisters[i])
 		}
 		for i := range rl.FieldListRegisters {
-			add(4, rl.FieldListRegisters[i], nil)
+			add(4, poolItem{kind: 4, f: &rl.FieldListRegisters[i]}, nil)
 		}
 		sort.Strings(mp)
 		limit := 30 * time.Second
@@ -302,7 +364,20 @@ func suiteC20(rng *Rng, thorough bool, s *Sink) {
 			if errLine != "" || count != rl.Len() || len(regLines) != rl.Len() {
 				viol(fmt.Sprintf("a healthy device of product 0x%04X must yield %d register lines (header says %d, %d lines, error %q)", sc.id, rl.Len(), count, len(regLines), errLine))
 			}
-			// each line shows the value the device holds, scaled as the register defines (via the verified readers)
+			// each line shows the value the device holds, scaled as the register defines
+			seen := map[string]bool{}
+			for _, l := range regLines {
+				seen[l.name] = true
+				if w, ok := wantText[l.name]; ok && w != l.text {
+					viol(fmt.Sprintf("line %q does not show the value the device holds: expected %q", l.text, w))
+				}
+			}
+			for _, r := range rl.GetRegisters() {
+				if !seen[r.Name()] {
+					viol(fmt.Sprintf("no line for register %s of the product's list", r.Name()))
+				}
+			}
+			// ... and agrees with the library's readers on the same device
 			dev2 := NewDevPort(sc.id)
 			for a, v := range dev.Regs {
 				dev2.Regs[a] = v
